@@ -223,3 +223,21 @@ Proof.
   apply h_on_fres; [intros g [Hg _]; auto|]. intros g f' [Hg ->] Hr. eapply FJ_write_text; eauto.
 Qed.
 End FJ.
+
+(* removal and rename as primitives that are really executed *)
+Lemma h_fs_remove e p (P : fsT -> Prop) (Q : unit -> fsT -> Prop) (E : fsT -> Prop) :
+  e_pretend e = false -> (forall g, P g -> E g) ->
+  (forall g g', P g -> remove_all g p = FOk g' -> Q tt g') -> hoare P (fs_remove e p) Q E.
+Proof.
+  intros Hp HE HQ. unfold fs_remove, do_op. apply h_mutate_real; auto. unfold apply_op.
+  eapply h_bind; [apply h_get_fs|]. intros f. eapply h_bind; [apply h_get_ks|]. intros k.
+  apply h_on_fres; [now intros g [Hg _]; auto|]. intros g f' [Hg ->] Hr. eapply HQ; eauto.
+Qed.
+Lemma h_fs_rename e a b (P : fsT -> Prop) (Q : unit -> fsT -> Prop) (E : fsT -> Prop) :
+  e_pretend e = false -> (forall g, P g -> E g) ->
+  (forall g g', P g -> rename g a b = FOk g' -> Q tt g') -> hoare P (fs_rename e a b) Q E.
+Proof.
+  intros Hp HE HQ. unfold fs_rename, do_op. apply h_mutate_real; auto. unfold apply_op.
+  eapply h_bind; [apply h_get_fs|]. intros f. eapply h_bind; [apply h_get_ks|]. intros k.
+  apply h_on_fres; [now intros g [Hg _]; auto|]. intros g f' [Hg ->] Hr. eapply HQ; eauto.
+Qed.
